@@ -477,7 +477,6 @@ func runC05(c *Ctx) {
 	c.Rule("R05.10", "E2", "rruntime.Adapter.watchFilters (written by UpdateInputs, read by the runtime's event loop) only under watchFilterMu", 3)
 	c.LocksetReport("R05.10", p.Lockset(LockSpec{Rel: pkgRRuntime, Struct: "Adapter", Mutex: "watchFilterMu", Guarded: []string{"watchFilters"}}, pkgRRuntime), nil)
 
-
 	// ---------- R05.11 (shared with C17 R17.5)
 	c.Import(runC17, "R17.5", "", "R05.11", "E1", "a rejected registration never reaches the dependency-database rollback of the controller that holds the name: its inputs stay registered, its wake-ups continue", 4)
 
